@@ -19,6 +19,12 @@ CHECKS["C08"] = ("Lean 4 machine-checked proof over R about an executable model 
     "22 Lean-4 theorems over R about an executable model of woehlercurve.py (_make_k, basquin_cycles/basquin_load, transform_to_failure_probability, Miner modifiers, TN/TS defaults) and of the scatter conversions, for every k1>1, k2>=k1 or inf, SD, ND>0, TN, TS>=1, every failure probability and positive load/cycle number: cycles/load inverses with branch consistency across the knee, antitonicity, continuity at the knee, log-log slopes, infinite life for k2=inf, Miner variants, monotonicity in pf, N90/N10 and SD90/SD10 as powers TN^(2 z c), TS^(2 z c) (= TN, TS under 2 z c = 1; N90/N10 = TN proved for L >= SD90, exact ratio below the knee proved as well), transform composition and native identity, scatter conversions. The normal quantile is abstract (strictly increasing, odd). Tied to the code on every run by differential comparison (rtol 1e-11) of scalar, array, Series and DataFrame calls incl. exactly SD/ND; the property's relations are evaluated directly on the real code.", "5 C08")
 CHECKS["C14"] = ("machine-checked proof (Lean 4 / Mathlib, induction over edge and break lists, ordered-field algebra) + compiled-model correspondence + direct property oracle",
     "Lean 4 proofs over R for an executable model of LoadCollective/LoadHistogram, numpy's bin rule, rebin_histogram and combine_histogram: consistency identities, from/to <-> range/mean round trips, scale/shift equivariance with cycles untouched; exactly-one-class and sum of contents = cycles in range for 1-D/2-D histograms over any weakly increasing edge list (induction over edges); range histogram = marginal; re-bin total conservation for any gap-free covering target and positive-width source classes, identity on the own binning, kernel-checked refutation of literal composition plus proofs that composition conserves the total and that A->B->C = A->C when B refines A; combine-by-sum conserves the grand total. The model describes the repaired code (four fix: commits) and is tied to it by bit-exact correspondence on an exhaustive small scope plus seeded random cases; a model-independent oracle evaluates the relations on the real code.", "5 C14")
+CHECKS["C17"] = ("Lean 4 + Mathlib (spectral theorem, characteristic polynomial) proof on a generic-carrier executable model; bit-exact differential correspondence; direct property oracle",
+    "Lean 4 proof, over R, for all symmetric 3x3 tensors, all orthogonal Q and all positive factors: Mises^2 equals the trace invariants; all ten equivalent stresses are invariant under Q S Q^T and positively homogeneous; Mises equals its principal form, Tresca = w_max - w_min, abs-max = eigenvalue of largest magnitude with its sign; Mises <= Tresca <= 2/sqrt(3) Mises; signed variants have the unsigned magnitude and the sign of the trace or abs-max eigenvalue (+1 at zero); the accessor is a row-wise map. numpy.linalg.eigvalsh is modelled by its contract (ascending roots of the characteristic polynomial, proved to exist, to be unique, rotation-invariant and to scale). The model is tied to the code by bit-exact correspondence on scalar, column and accessor paths plus an independent-eigenvalue oracle (1e-9 scale). Floating-point rounding is not verified.", "5 C17")
+CHECKS["C11"] = ("Lean 4 proof over R of a carrier-generic executable model + compiled-model/implementation correspondence + direct property oracle",
+    "Machine-checked (Lean 4, R) for the executable model of Fatigue.damage / WoehlerCurve.cycles / solidity.haibach / Miner lifetime multiples / gassner_cycles / gassner / effective_damage_sum: damage sum additive over appended collectives, proportional to counts, permutation invariant; original <= Haibach <= elementary class by class for k_1 >= 1; applying a collective for its Miner-elementary resp. Miner-Haibach Gassner cycles gives damage exactly 1 for every collective with non-negative data and at least one loaded occupied class, any empty classes, any position of SD, any load scale; effective damage sum in [0.3, 1]. The model is the repaired miner.py (fix 110dd2d); the old behaviour is refuted in the kernel. Tied to the code by a differential run (relative tolerance 1e-11) over range / range-mean / from-to histograms and LoadCollective frames through the registered accessors, including all occupancy patterns x SD positions of small histograms.", "5 C11")
+CHECKS["C16"] = ("machine-checked proof (Lean 4 / Mathlib) over source-translated definitions + differential correspondence + direct property oracle",
+    "25 Lean theorems over R about definitions regenerated from the current source on every run by an ast->Lean translator (RO strain odd / strictly increasing / bijective with exact inverse, compliance = derivative everywhere incl. 0, modulus = reciprocal = derivative of the inverse, Masing doubling and inverse, hysteresis reversal point, Hooke 1D/plane stress/plane strain/3D round trips and plane<->3D agreement, G and K, true stress/strain inverses); the translator is validated each run by differential comparison of the generated definitions at Float with the real functions (bit-exact for + - x /, 1e-12 relative for pow/log); convergence of the Newton inverse is not proved, it is measured against bisection within the solver's tolerance.", "5 C16")
 PENDING = {}
 def main():
     props = [json.loads(l) for l in open(os.path.join(HERE, "properties.jsonl"))]
